@@ -601,6 +601,11 @@ func Eval(e *E, ctx []*V, env Env) ([]*V, error) {
 					}
 					return nil, err
 				}
+				if len(r) == 0 {
+					// documented as jq's any(cond) / all(cond): an element for which the condition yields
+					// nothing contributes no verdict
+					continue
+				}
 				if len(r) != 1 {
 					return nil, unspec("condition with %d results", len(r))
 				}
